@@ -13,6 +13,66 @@ import (
 
 func isComposite(k string) bool { return k == "object" || k == "interface" || k == "union" }
 
+// nearMiss: a name within one or two edits of one of `names` (gated and visible ones alike) that is
+// none of `names` — the input on which a "did you mean ..?" would name the original
+func nearMiss(r *rng.R, names []string, fallback string) string {
+	if len(names) == 0 {
+		return fallback
+	}
+	taken := map[string]bool{}
+	for _, n := range names {
+		taken[n] = true
+	}
+	for try := 0; try < 8; try++ {
+		n := rng.Pick(r, names)
+		for k, edits := 0, r.Range(1, 2); k < edits && len(n) > 0; k++ {
+			i := r.Intn(len(n))
+			switch r.Intn(4) {
+			case 0: // drop a character
+				if len(n) > 1 {
+					n = n[:i] + n[i+1:]
+				}
+			case 1: // double a character
+				n = n[:i] + n[i:i+1] + n[i:]
+			case 2: // replace a character
+				n = n[:i] + "z" + n[i+1:]
+			default: // swap two neighbours
+				if i+1 < len(n) {
+					n = n[:i] + n[i+1:i+2] + n[i:i+1] + n[i+2:]
+				}
+			}
+		}
+		if n != "" && !taken[n] && !(n[0] >= '0' && n[0] <= '9') && !strings.HasPrefix(n, "__") {
+			return n
+		}
+	}
+	return fallback
+}
+
+func fieldNames(fs []fieldDesc) []string {
+	out := make([]string, len(fs))
+	for i, f := range fs {
+		out[i] = f.Name
+	}
+	return out
+}
+
+// a field name that does not exist on the type: usually a near miss of one that does
+func missingField(r *rng.R, pt *typeDesc) string {
+	if r.Chance(1, 4) {
+		return "nofield"
+	}
+	return nearMiss(r, fieldNames(pt.Fields), "nofield")
+}
+
+// a type name that does not exist: usually a near miss of one that does
+func missingType(r *rng.R, d *desc) string {
+	if r.Chance(1, 4) {
+		return "Nope"
+	}
+	return nearMiss(r, d.allTypeNames(), "Nope")
+}
+
 func (d *desc) kindOf(name string) string {
 	if t := d.typ(name); t != nil {
 		return t.Kind
@@ -67,7 +127,7 @@ func pickFragmentType(r *rng.R, d *desc, parent string) string {
 	case x < 18:
 		return rng.Pick(r, d.allNames(func(k string) bool { return !isComposite(k) }))
 	default:
-		return "Nope"
+		return missingType(r, d)
 	}
 }
 
@@ -88,8 +148,8 @@ func genChain(r *rng.R, d *desc) []chainNode {
 			return append(out, chainNode{'t', ""})
 		}
 		if pt.Kind != "union" && x < 15 {
-			if r.Chance(1, 25) {
-				return append(out, chainNode{'f', "nofield"})
+			if r.Chance(1, 12) {
+				return append(out, chainNode{'f', missingField(r, pt)})
 			}
 			f := rng.Pick(r, pt.Fields)
 			if r.Chance(1, 2) { // prefer going deeper
@@ -133,6 +193,7 @@ func enumChains(d *desc, maxLen int) [][]chainNode {
 		pt := d.typ(parent)
 		emit(append(prefix, chainNode{'f', "nofield"}))
 		for _, f := range pt.Fields {
+			emit(append(prefix, chainNode{'f', f.Name + "z"})) // one edit away from an existing (maybe gated) field
 			c := append(prefix, chainNode{'f', f.Name})
 			emit(c)
 			if isComposite(d.kindOf(f.Type.Name)) && len(c) < maxLen {
@@ -246,8 +307,13 @@ func (g *docGen) value(t tref, depth int) (string, interface{}) {
 	td := g.d.typ(t.Name)
 	switch td.Kind {
 	case "enum":
-		if g.r.Chance(1, 12) {
-			return "NOPE", "NOPE"
+		if g.r.Chance(1, 8) { // a value the enum does not have: usually a near miss of one it has
+			var vs []string
+			for _, v := range td.Values {
+				vs = append(vs, v.Name)
+			}
+			v := nearMiss(g.r, vs, "NOPE")
+			return v, v
 		}
 		v := rng.Pick(g.r, td.Values).Name
 		return v, v
@@ -288,7 +354,15 @@ func (g *docGen) args(as []argDesc) string {
 			g.tags["variable"] = true
 			lit = "$" + v
 		}
-		parts = append(parts, a.Name+": "+lit)
+		name := a.Name
+		if g.r.Chance(1, 12) { // an argument the field does not have: a near miss of one it has
+			var ns []string
+			for _, x := range as {
+				ns = append(ns, x.Name)
+			}
+			name = nearMiss(g.r, ns, "noarg")
+		}
+		parts = append(parts, name+": "+lit)
 	}
 	if len(parts) == 0 {
 		return ""
@@ -307,9 +381,19 @@ func (g *docGen) selset(parent string, depth int) string {
 		switch {
 		case pt.Kind != "union" && x < 11:
 			f := rng.Pick(g.r, pt.Fields)
+			if g.r.Chance(1, 10) { // a field the type does not have
+				sels = append(sels, g.fresh("k")+": "+missingField(g.r, pt))
+				continue
+			}
 			s := g.fresh("k") + ": " + f.Name + g.args(f.Args)
 			if g.r.Chance(1, 10) {
 				s += " @include(if: true)"
+			} else if g.r.Chance(1, 20) { // a directive the schema does not have: a near miss of one it has
+				var ds []string
+				for _, dd := range g.d.Directives {
+					ds = append(ds, dd.Name)
+				}
+				s += " @" + nearMiss(g.r, ds, "nodirective")
 			}
 			if isComposite(g.d.kindOf(f.Type.Name)) {
 				s += " " + g.selset(f.Type.Name, depth+1)
@@ -342,6 +426,9 @@ func genDoc(r *rng.R, d *desc) (string, map[string]interface{}, []string) {
 	body := g.selset(d.Query, 0)
 	if r.Chance(1, 15) { // a variable that is declared and never used, of any input type
 		t := rng.Pick(r, d.allNames(func(k string) bool { return k == "scalar" || k == "enum" || k == "input" }))
+		if r.Chance(1, 3) { // a type the schema does not have
+			t = missingType(r, d)
+		}
 		g.vars = append(g.vars, "$"+g.fresh("u")+": "+t)
 		g.tags["variable"] = true
 	}
